@@ -270,7 +270,7 @@ def programs_signed(tier):
         F("a", T_i(64), (32, 64)),
         F("b", T_i(32), (0, 32)),
         F("c", T_i(16), (100, 16)),
-    ])], props=("C05", "C16")))
+    ])], props=("C05", "C16", "C12")))
     progs.append(Program("sg128f", structs=[S("sg128f", 128, [
         F("a", T_i(128), (0, 128)),
     ])], props=("C05", "C16", "C13")))
@@ -595,6 +595,9 @@ def programs_c14(tier):
     add("kroselfov", 32, [F("a", T_u(8), (0, 8)), F("win", T_u(8), [(16, 4), (18, 4)], access="r")], Default(0x00AB0000), extra=("C13", "C17"))   # read-only self-overlapping view: builder still due
     add("kroalias", 16, [F("divider", T_u(4), (8, 4)), F("fast", T_bool(), (11, 1), access="r"), F("lowv", T_u(8), (0, 8), access="r")], Default(0x0800), extra=("C13", "C17"))   # read-only alias AFTER the writable field
     add("kroalias2", 16, [F("fast", T_bool(), (11, 1), access="r"), F("divider", T_u(4), (8, 4))], Default(0), extra=("C13", "C17"))
+    add("karb72", 72, [F("payload", T_u(64), (0, 64)), F("tag", T_u(8), (64, 8))], extra=("C13", "C11"))   # complete u72 (storage u128), no default -> builder
+    add("karb127", 127, [F("lo", T_u(64), (0, 64)), F("hi", T_u(63), (64, 63))], extra=("C13",))            # complete u127, no default -> builder
+    add("karb65inc", 65, [F("lo", T_u(64), (0, 64))])                                                    # bit 64 uncovered, no default -> none
     add("krogap", 8, [F("a", T_u(4), (0, 4)), F("r", T_u(4), (4, 4), access="r")])                 # read-only bits uncovered, no default -> none
     add("krogapdef", 8, [F("a", T_u(4), (0, 4)), F("r", T_u(4), (4, 4), access="r")], Default(0xA0), extra=("C13",))
     add("karb", 12, [F("a", T_u(4), (0, 4)), F("b", T_u(8), (4, 8))], extra=("C13", "C11"))       # arbitrary base complete -> builder
